@@ -2,7 +2,7 @@
 its transitive callers; JSON-equal versions invalidate nothing."""
 from symx import logic as L
 from .world import World
-from .program import Program, show
+from .program import Program, show, RAISES
 from .common import Driver
 from . import jsonval as J
 
@@ -26,7 +26,8 @@ SHAPES = ['absent', 'none', 'bool', 'int', 'float', 'str', 'nested', 'dict-ab', 
 
 
 def families(tier):
-    f = [{'name': 'one-changes', 'params': {}, 'weight': 3}, {'name': 'all-vary', 'params': {}, 'weight': 1}]
+    f = [{'name': 'one-changes', 'params': {}, 'weight': 3}, {'name': 'all-vary', 'params': {}, 'weight': 1},
+         {'name': 'all-vary', 'params': {'leaf_may_raise': True}, 'weight': 2}]
     if tier == 'thorough':
         f += [{'name': 'one-changes', 'params': {'builds': 3}, 'weight': 3}, {'name': 'diamond', 'params': {}, 'weight': 2}]
     return f
@@ -65,11 +66,13 @@ def harness(eng, fam, P):
     try:
         kinds = [eng.choose('kind' + n, 2) for n in NAMES]       # 0 subbuild, 1 build_file
 
+        catch_leaf = bool(P.get('leaf_may_raise'))
+
         def mk(i, body):
             n = NAMES[i]
             if kinds[i] == 0:
-                return ('SB', n, {}, body)
-            return ('BF', 'o/' + n, {'mode': 'ok', 'name': n}, body)
+                return ('SB', n, {'catch': catch_leaf and i == 2}, body)
+            return ('BF', 'o/' + n, {'mode': 'ok', 'name': n, 'catch': catch_leaf and i == 2}, body)
 
         if fam == 'diamond':
             leaf1 = ('SB', 'leaf', {'args': (1,)}, [])
@@ -107,6 +110,15 @@ def harness(eng, fam, P):
                     else:
                         same_v = True
                     eng.constrain(L.implies(same_v, beh[sid] == behs[b - 1][sid]))
+            if P.get('leaf_may_raise'):
+                # one version of the leaf may be a raising one (caught by mid); JSON-equal versions behave alike
+                leaf_sid = [sid for sid, n in sid_name.items() if n == 'leaf'][0]
+                r = bool(eng.choose('leafraises%d' % b, 2))
+                if b > 0:
+                    same_v = J.spec_equal(vval(vers[b - 1]['leaf']), vval(vers[b]['leaf']))
+                    eng.assume(L.implies(same_v, r == (behs[b - 1][leaf_sid] is RAISES)), 'JSON-equal versions of a function behave alike (raising or not)')
+                if r:
+                    beh[leaf_sid] = RAISES
             behs.append(beh)
         d = Driver(eng, w)
         for b in range(nbuilds):
